@@ -32,7 +32,11 @@ CONFIG = {
                    'object, with and without fairness constraints, structures '
                    'dropped and re-created so ids are reused) are executed; '
                    'every call is checked for leaving its arguments untouched '
-                   'and for returning what the same case returned before.'),
+                   'and for returning what the same case returned before.'
+                   ' The pools are drawn from one catalogue, so first outcomes'
+                   ' are also compared across histories and across worker'
+                   ' processes started with the same hash seed; nested calls are'
+                   ' checked for purity too.'),
     'level_note': ('Trusted base: neutral.deep_snapshot; the history table '
                    'keys cases by their neutral form. Only observed '
                    'histories are covered.'),
